@@ -299,8 +299,14 @@ type transformationKey struct {
 	// transaction phase and we would never have different string pointers with the same
 	// content, or more problematically same pointer for different content, as the strings
 	// will be alive throughout the phase.
-	argKey            *byte
-	argIndex          int
+	argKey   *byte
+	argIndex int
+	// argValue and argValueLen identify the exact value string the result was computed from. The position in the
+	// list returned by a collection is not stable within a phase (collections are Go maps, and exclusions differ
+	// between rules), so key pointer and position alone let one value of a repeated argument name be served the
+	// cached result of another one.
+	argValue          *byte
+	argValueLen       int
 	argVariable       variables.RuleVariable
 	transformationsID int
 }
